@@ -237,6 +237,10 @@ class QGen:
             self.declare(etype, m)
             self.shape.append("oint")
             return f"{o}.{m}()", "int"
+        if etype == "xAOD::Jet" and r.random() < 0.12:
+            # jet moments: read by name from the object
+            self.shape.append("jetattr")
+            return f"{o}.getAttributeFloat('{r.choice(['emf', 'Width', 'Timing'])}')", "double"
         if r.random() < 0.10:
             # a single-precision value (declared float): sums over it are accumulated in a wider type
             m = r.choice(["fpt", "fm"])
